@@ -49,7 +49,9 @@ LawViolations(w1, w2, label, args, c1(_, _), c2(_, _)) ==
             IN (IF allGoverned
                 THEN {<<"C14-addpolicy-removed", pq>> : pq \in {pq \in pairs : ~(c1(pq[1], pq[2]) \subseteq c2(pq[1], pq[2]))}}
                 ELSE {})
-               \cup (IF allUngoverned
+               \* (with a BaselineAdminNetworkPolicy the ungoverned state is not "everything allowed": a NetworkPolicy overrides
+               \*  a baseline Deny, so a new policy may ADD connections -- the clause is claimed without a BANP only)
+               \cup (IF allUngoverned /\ w1.banp.nil
                      THEN {<<"C14-addpolicy-added", pq>> : pq \in {pq \in pairs : ~(c2(pq[1], pq[2]) \subseteq c1(pq[1], pq[2]))}}
                      ELSE {})
                \cup {<<"C14-addpolicy-nonlocal", pq>> :
